@@ -22,6 +22,7 @@ package object
 //@   modifies *
 //@   nosafety
 //@   ensures  identity:: implies(!isType(o0, Reference) && !isType(o0, *Register), result == o0)
+//@   ensures  noref:: !isType(result, Reference)
 //@   loop 1 invariant implies(!isType(o0, Reference) && !isType(o0, *Register), o == o0)
 //@   property C12 C07
 
